@@ -256,12 +256,22 @@ def trunc_path(entry, path, opts):
         if all(x == 'unsat' for x in lst): res['claims'][nm] = 'proved-bound'
         elif any(x == 'sat' for x in lst): res['claims'][nm] = 'bound-refuted'
         else: res['claims'][nm] = 'undecided'
+    # magnitude hints from the solver's models of refuted bounds (sat-side: where to look for a concrete counterexample)
+    refuted = [(lab, a) for (lab, a) in checks if rs[lab][0] == 'sat'][:3]
+    if refuted and ctx.sigma is not None:
+        rm = smt.run_checks(pre, refuted, per_check_ms=opts.get('trunc_ms', 20000), jobs=3, tactic='qfnra-nlsat', models=True)
+        hints = []
+        for lab, _ in refuted:
+            m = smt.parse_model(rm[lab][1]) if rm[lab][0] == 'sat' else {}
+            v = m.get('n%d' % ctx.sigma)
+            if v is not None: hints.append(float(v))
+        res['sigma_hints'] = hints
     res['monomials'] = {nm: {'monomials': v[0], 'box_degree': v[2]} for nm, v in meta.items()}
     res['time'] = time.time() - t0
     return res
 
 # ---------------------------------------------------------------------------
-def region_points(entry, path, n, seed, boxes=(1, 10 ** 6)):
+def region_points(entry, path, n, seed, boxes=(1, 10 ** 6), hints=()):
     """Sample points of the Taylor region of this path (sat-side helper)."""
     import mpmath as mp
     mp.mp.dps = 60
@@ -277,7 +287,7 @@ def region_points(entry, path, n, seed, boxes=(1, 10 ** 6)):
     for kind, ids_ in path.hyps:
         for j in ids_: inq[j] = (kind, ids_)
     pts = []
-    mags = [mp.mpf('1.48e-7'), mp.mpf('1.0e-7'), mp.mpf('1e-8'), mp.mpf('1e-10'), mp.mpf('2.7e-5'), mp.mpf('1e-5'), mp.mpf('1e-6')]
+    mags = [mp.mpf(h) * f for h in hints for f in (1, mp.mpf('0.999'), mp.mpf('0.9'))] + [mp.mpf('1.48e-7'), mp.mpf('1.0e-7'), mp.mpf('1e-8'), mp.mpf('1e-10'), mp.mpf('2.7e-5'), mp.mpf('1e-5'), mp.mpf('1e-6')]
     for k in range(n):
         mag = mags[k % len(mags)]; B = boxes[(k // len(mags)) % len(boxes)]
         asg = {}; done = set()
@@ -309,14 +319,14 @@ def region_points(entry, path, n, seed, boxes=(1, 10 ** 6)):
         pts.append(asg)
     return pts
 
-def numeric_check(entry, path, names, n=42, seed=0):
+def numeric_check(entry, path, names, n=42, seed=0, hints=()):
     """Evaluate |taylor - generic| in 60-digit arithmetic at points of the region. Returns {name: (asg, lv, rv, tol)} for exceedances, and #points in region."""
     import mpmath as mp
     nodes = entry.nodes
     ap = {nm: (l, r, cls) for (nm, l, r, cls) in path.approx}
     found = {}; npc = 0
     ids = [x for nm in names for x in ap[nm][:2]] + [x for d in path.decisions for x in (d[0], d[2])]
-    for asg in region_points(entry, path, n, seed):
+    for asg in region_points(entry, path, n + 6 * len(hints), seed, hints=hints):
         try: val = dagm.numeval(nodes, ids, asg, mp)
         except Exception: continue
         ok = True
